@@ -25,6 +25,8 @@ def bounds(tier):
     q = tier == "quick"
     return {"ff/bf": f"all sequences of 1..{6 if q else 7} items over 0..6 (B=6); all sequences of 1..{4 if q else 5} over 1..10 (B=10)",
             "ffd/bfd": f"all multisets of 1..{8 if q else 9} items over 0..6 (B=6) and 1..{7 if q else 8} over 1..10 (B=10)",
+            "planted-big": "B=12 and B=101 (letters 1,2,16,17,33,34,50,51,67): every unordered pair of patterns x multiplicities " + ("(18,9),(60,30)" if q else "(18,9),(60,30),(5,100),(150,150)") + ", 6 arrival orders",
+            "big": f"B=2**32, letters {{1, 2**31-1, 2**31, 2**31+1, 2**32-1, 2**32}}: all sequences of 1..{4 if q else 5}, multisets of 1..{5 if q else 6}",
             "planted": f"B=12, letters {PLANT_LETTERS}, patterns <=4 parts, m=3..{6 if q else 8} bins, 6 orders, 4 algorithms"}
 
 
@@ -41,6 +43,23 @@ def tasks(tier):
     for m in (range(3, 7) if q else range(3, 9)):
         for ch in spaces.chunked(((it, m) for it, _ in spaces.planted(12, PLANT_LETTERS, m, maxparts=4)), 400):
             ts.append(("planted", ch, 12))
+    # large planted perfect packings (tens to hundreds of bins, where the 11/9 and 1.7 factors leave the additive terms behind):
+    # every unordered pair of patterns x a grid of multiplicities, for B=12 and for B=101 with letters next to B/2, B/3, B/6
+    for Bb, letters in ((12, PLANT_LETTERS), (101, (1, 2, 16, 17, 33, 34, 50, 51, 67))):
+        pats = spaces.partitions_of(Bb, letters, 4)
+        big = []
+        for i, pth in enumerate(pats):
+            for r in pats[i:]:
+                for a, b in (((18, 9), (60, 30)) if q else ((18, 9), (60, 30), (5, 100), (150, 150))):
+                    big.append((tuple(sorted(pth * a + r * b, reverse=True)), a + b))
+        for ch in spaces.chunked(big, 30):
+            ts.append(("planted", ch, Bb))
+    # near-miss sums around a 2**32 bin (a tolerance or a narrower number type would break the any-fit invariant there)
+    BL = (1, 2 ** 31 - 1, 2 ** 31, 2 ** 31 + 1, 2 ** 32 - 1, 2 ** 32)
+    for ch in spaces.chunked(spaces.sequences(BL, 1, 4 if q else 5), 400):
+        ts.append(("seq", ch, 2 ** 32))
+    for ch in scopes.chunk_multisets(BL, 1, 5 if q else 6, 200):
+        ts.append(("ms", ch, 2 ** 32))
     return ts
 
 
